@@ -11,9 +11,10 @@
 (* Stdlib.tla produces, CallH performs the call on the evaluated packages      *)
 (* (function call / module instantiation / field selection of Eval.tla), with *)
 (* the abstract ids mapped to fixed distinct values (Ev), and SrcAgrees        *)
-(* compares the result with Outcome(SrcDevs, ...): SrcDevs names the recorded  *)
-(* deviations that are still open, i.e. defects the source is known to have;  *)
-(* with SrcDevs = {} the source must compute the reference.                    *)
+(* compares the result with the reference Outcome({}, ...) and, for the        *)
+(* recorded deviations that are still open (SrcDevs: defects the source is     *)
+(* known to have), with Outcome(SrcDevs, ...); with SrcDevs = {} the source    *)
+(* must compute the reference.                                                 *)
 (* A disagreement is printed as a DISAGREE line (all are collected in one run) *)
 (* and SrcAgrees stays true; the driver replays those calls on the real code. *)
 EXTENDS Stdlib, Eval, IOUtils
@@ -130,7 +131,7 @@ SrcAgrees ==
     LET r   == SrcResult
         exp == Outcome(SrcDevs, fam, call, xs, ys)
         c   == Case(fam, call, xs, ys)
-    IN IF SrcAdmitted(r, exp)
+    IN IF SrcAdmitted(r, exp) \/ SrcAdmitted(r, Outcome({}, fam, call, xs, ys))      \* a repaired source is fine, too
          THEN PrintT(<< "REPLAY", ToJson([fam |-> fam, h |-> call[1], srcfail |-> Bad(r)]) >>)
          ELSE PrintT(<< "DISAGREE", ToJson([fam |-> c.fam, h |-> c.h, args |-> c.args, ok |-> c.ok, mayfail |-> c.mayfail,
                                             dev |-> c.dev, devok |-> c.devok, devfail |-> c.devfail,
